@@ -26,7 +26,7 @@ META = dict(
   max_inconclusive=dict(quick=0, thorough=0),
 )
 
-QUICK = ["one_view_pair", "one_view_eam", "one_view_fs", "two_views_pair", "two_views_eam", "two_views_fs"]
+QUICK = ["one_view_charged", "one_view_pair", "one_view_eam", "one_view_fs", "two_views_pair", "two_views_eam", "two_views_fs"]
 
 
 def xh_case(name, timeout):
@@ -37,6 +37,9 @@ def xh_case(name, timeout):
 # differential replay through potable
 
 MODELS = {
+  "charged": dict(species=["Ce4+", "Ce3+", "O"], sections=[
+    ("Pair", [("Ce4+-O", "as.buck 1986.83 0.35107 20.40"), ("O-Ce3+", "as.buck 1731.62 0.36372 14.43"), ("O-O", "as.buck 22764.3 0.149 27.89"), ("Ce3+-Ce4+", "as.polynomial 0.1 0.2")])],
+    targets=["LAMMPS", "GULP"]),
   "pair": dict(species=["Mg", "Al", "O"], sections=[
     ("Pair", [("Mg-O", "as.buck 1279.69 0.29969 0.0"), ("O-Al", "as.buck 1361.29 0.3013 0.0"), ("O-O", "as.buck 9547.96 0.21916 32.0"), ("Al-Mg", "as.polynomial 0.1 0.2")])],
     targets=["LAMMPS", "GULP", "DL_POLY", "excel"]),
